@@ -30,7 +30,9 @@ Positions(kind) ==
     [] kind = "threshold"    -> {"below", "low", "inside", "high", "above"}
     [] kind = "min_n_cycles" -> {"negative", "zero", "inside"}
     [] kind = "amp_threshes" -> {"reversed", "equal", "ordered", "negative_low"}
-    [] kind = "option"       -> {"valid1", "valid2", "unknown"}
+    [] kind = "option"       -> {"valid1", "valid2", "unknown", "unknown_empty", "unknown_zero", "unknown_false", "unknown_capitalised", "unknown_bytes"}
+                                \* unknown values of other shapes: the empty string, 0, False (falsy values are not "no value"), a valid name with
+                                \* another capitalisation, the valid name as bytes
     [] kind = "option_in_degenerate_context" -> {"unknown"}      \* an unknown option must be rejected whatever the other inputs are
     [] kind = "ndim"         -> {"too_few", "ok", "too_many"}
     [] OTHER                 -> {"before_fit", "after_fit"}          \* plot
